@@ -85,25 +85,42 @@ func preBytes(pre string, n int) []byte {
 	return nil
 }
 
-func genBuf(r *hxlib.Rng, n, arena int, first bool) bufSpec {
-	if arena < n || r.Intn(4) == 0 {
+var bufClasses = []string{"fresh", "ones", "kept", "random", "kept_subslice", "bytefill"}
+
+// genBufClass builds a buffer of the given class (a class that does not fit
+// degrades to "kept").
+func genBufClass(r *hxlib.Rng, class string, n, arena int) bufSpec {
+	if class == "fresh" || arena < n {
 		return bufSpec{fresh: true}
 	}
 	b := bufSpec{}
-	switch k := r.Intn(20); {
-	case k < 9 && !first:
+	room := arena - n
+	switch class {
+	case "kept":
 		b.pre = "k"
-	case k < 12:
+		return b
+	case "kept_subslice":
+		b.pre = "k"
+		if room > 0 {
+			b.off = 1 + r.Intn(room)
+		}
+		return b
+	case "ones":
 		b.pre = "fff"
-	case k < 14:
+	case "bytefill":
 		b.pre = fmt.Sprintf("f%02x", 1+r.Intn(254))
 	default:
 		b.pre = "r" + hxlib.Hex(r.Bytes(16))
 	}
-	if room := arena - n; room > 0 && r.Intn(2) == 0 {
+	if room > 0 && r.Intn(2) == 0 {
 		b.off = 1 + r.Intn(room)
 	}
 	return b
+}
+
+func genBuf(r *hxlib.Rng, n, arena int) bufSpec {
+	return genBufClass(r, []string{"fresh", "fresh", "kept", "kept", "kept", "kept_subslice", "kept_subslice", "ones", "ones",
+		"bytefill", "random", "random"}[r.Intn(12)], n, arena)
 }
 
 type hcall struct {
@@ -124,16 +141,22 @@ func histMode(args []string) int {
 		if cf.Only >= 0 && idx != cf.Only {
 			continue
 		}
+		// Planned (deterministic in the case index, so that every class is
+		// reached for every seed): size and buffer class of the first call
+		// (class bufClasses[idx%6]); in every other case the second call has
+		// the first call's size and goes INTO THE SAME SLICE.  The rest is
+		// random.
 		nc := 2 + r.Intn(3)
 		calls := make([]hcall, nc)
 		arena := 0
+		sameSlice := idx%2 == 1
 		for j := range calls {
 			n := sizes[r.Intn(len(sizes))]
 			if j == 0 {
 				n = sizes[(idx*7+3)%len(sizes)]
 			}
-			if j > 0 && r.Intn(3) == 0 {
-				n = calls[j-1].n // the very same slice again
+			if j == 1 && sameSlice {
+				n = calls[0].n
 			}
 			ck := choiceKinds[r.Intn(len(choiceKinds))]
 			calls[j] = hcall{n: n, ckind: ck, b: genChoices(r, n, ck)}
@@ -141,11 +164,24 @@ func histMode(args []string) int {
 				arena = n
 			}
 		}
-		if r.Intn(3) > 0 {
+		planned := bufClasses[idx%len(bufClasses)]
+		if idx%3 != 0 || planned == "kept_subslice" {
 			arena += 1 + r.Intn(9)
 		}
 		for j := range calls {
-			calls[j].buf = genBuf(r, calls[j].n, arena, j == 0)
+			calls[j].buf = genBuf(r, calls[j].n, arena)
+			if j == 0 {
+				calls[j].buf = genBufClass(r, planned, calls[j].n, arena)
+			}
+			if j == 1 && sameSlice {
+				if calls[0].buf.fresh {
+					// the first call wrote a fresh slice: let the second one
+					// reuse the arena slice at offset 0 that nobody wrote yet
+					// is pointless - give the first call that slice instead
+					calls[0].buf = bufSpec{pre: "k"}
+				}
+				calls[1].buf = bufSpec{pre: "k", off: calls[0].buf.off}
+			}
 		}
 		s := newSession(r, idx, 1, "zero", dk[idx%len(dk)]) // only for the sender tape / Delta kinds
 		stape := s.stape
